@@ -310,7 +310,7 @@ def run_parallel(cmd, traces, env=None, jobs=None):
             res.update(r)
     return res
 
-LEDGER = re.compile(r" L=\d+,\d+,\d+")
+LEDGER = re.compile(r" (?:L=\d+,\d+,\d+|own=\d+,\d+)")
 DIAG = re.compile(r" #[A-Za-z].*$")
 def strip_ledger(s):
     """Remove what the ideal object has no opinion about: the ledger token and the diagnostic tail
